@@ -1087,10 +1087,10 @@ func (l *LineWrapper) wrapNextLine(config lineConfig) (done bool) {
 			l.scratch.markCandidateBest(candidateRun)
 			return true
 		case truncated:
-			// The candidateRun does not fit.
-			if !l.scratch.hasBest() {
-				l.scratch.markCandidateBest()
-			}
+			// The candidateRun does not fit: keep the best line found so far, if any.
+			// The runs accumulated in the current candidate are not a valid line by
+			// themselves (they end inside the word, and were not measured against
+			// the truncated width).
 			if l.config.BreakPolicy == Never {
 				return true
 			}
@@ -1139,9 +1139,6 @@ func (l *LineWrapper) wrapNextLine(config lineConfig) (done bool) {
 				l.scratch.markCandidateBest(candidateRun)
 				return true
 			case truncated:
-				if !l.scratch.hasBest() {
-					l.scratch.markCandidateBest()
-				}
 				return true
 			case newLineBeforeBreak:
 				l.restore()
